@@ -24,3 +24,56 @@ Theorem C13_rejection_skips_one_alternative :
     inv_b t = true -> In (r, i) (routes_of t) -> fits chk r p vs -> search chk t p <> None.
 Proof. exact search_complete. Qed.
 Print Assumptions C13_rejection_skips_one_alternative.
+
+(* ---- (a), (b) for every history (Proofs/ConstraintsP.v) ---- *)
+From WF Require Import Model.Parser Model.Constraints Proofs.ReachP Proofs.RouterRoutesP Proofs.ConstraintsP.
+Print in_force.
+
+(* a registration either is refused (name in use: the router is returned unchanged, the error names the type in
+   force) or appends the new pair *)
+Theorem C13_registration_outcome :
+  forall r name ty,
+    match in_force r name with
+    | Some (_, old) => rconstraint r name ty = (r, RErr (CEDuplicateName name old ty))
+    | None => rconstraint r name ty = (Router (r_root r) (r_constraints r ++ [(name, ty)]), ROk tt)
+    end.
+Proof. exact rconstraint_outcome. Qed.
+Print Assumptions C13_registration_outcome.
+
+(* what is in force under a name never changes again, whatever is called afterwards - so the original stays in
+   force after a refused duplicate, and the check function every later search uses for that name is its function *)
+Theorem C13_original_stays_in_force :
+  forall b (ops ops' : list op) name x,
+    in_force (run b ops) name = Some x -> in_force (run b (ops ++ ops')) name = Some x.
+Proof. exact in_force_forever. Qed.
+Print Assumptions C13_original_stays_in_force.
+
+Theorem C13_check_function_stays :
+  forall b (ops ops' : list op) name x v,
+    in_force (run b ops) name = Some x ->
+    cfun_of (r_constraints (run b (ops ++ ops'))) name v = cfun_of (r_constraints (run b ops)) name v.
+Proof. exact cfun_forever. Qed.
+Print Assumptions C13_check_function_stays.
+
+(* (b) a template that names an unregistered constraint is refused and nothing changes; and only then *)
+Theorem C13_unknown_constraint_refused :
+  forall r t d es,
+    parse t = Ret es ->
+    ((exists c, rinsert r t d = (r, RErr (IEUnknownConstraint c))) <-> unknown_constraint r es <> None).
+Proof. exact unknown_constraint_iff. Qed.
+Print Assumptions C13_unknown_constraint_refused.
+
+Theorem C13_unknown_constraint_is_named_and_unregistered :
+  forall r es c, unknown_constraint r es = Some c ->
+    registered r c = false /\ exists e p, In e es /\ In p (snd e) /\ part_constraint p = Some c.
+Proof. exact unknown_constraint_spec. Qed.
+Print Assumptions C13_unknown_constraint_is_named_and_unregistered.
+
+(* (d) for every history, with the check functions actually registered *)
+Theorem C13_reachable_rejection_skips_one_alternative :
+  forall b (ops : list op) p r i vs,
+    In (r, i) (routes_of (r_root (run b ops))) ->
+    fits (cfun_of (r_constraints (run b ops))) r p vs ->
+    rsearch (cfun_of (r_constraints (run b ops))) (run b ops) p <> None.
+Proof. intros b ops p r i vs. apply search_complete. apply reachable_inv_b. Qed.
+Print Assumptions C13_reachable_rejection_skips_one_alternative.
